@@ -217,6 +217,18 @@ func (c *conductor) worker(w int) {
 	}
 }
 
+// Ops that take Logger.mu and therefore cannot start while a FlushBuffer is in progress: the conductor
+// never schedules them then (the model stutters). The set grows when a step hangs while a flush is in
+// progress (a changed tree in which, say, Shutdown takes the mutex too): the history is cut there —
+// its partial trace is still judged, a prefix of a good trace is good — and later histories avoid the
+// combination, so the harness never sits on a hang for longer than a few watchdog periods.
+var blocksDuringFlush = map[string]bool{"S": true, "F": true, "V": true}
+
+// hangs that could not be explained that way; after three of them no further conductor history is run
+var unexplainedHangs int
+
+const watchdog = 2 * time.Second
+
 const (
 	stIdle = iota
 	stGate
@@ -268,6 +280,7 @@ func runB(k bcaseT, r *hx.Rand) (bcaseT, []evT, bool, map[string]int) {
 	}
 	stats := map[string]int{}
 	ok := true
+	hung := false
 	wait := func(w int) bool {
 		select {
 		case m := <-c.resp:
@@ -284,7 +297,8 @@ func runB(k bcaseT, r *hx.Rand) (bcaseT, []evT, bool, map[string]int) {
 				}
 			}
 			return true
-		case <-time.After(10 * time.Second):
+		case <-time.After(watchdog):
+			hung = true
 			return false
 		}
 	}
@@ -299,17 +313,35 @@ func runB(k bcaseT, r *hx.Rand) (bcaseT, []evT, bool, map[string]int) {
 				stats["switch_during_flush"]++
 			}
 			c.release[w] <- struct{}{}
-			return wait(w)
+			if wait(w) {
+				return true
+			}
+			if hung {
+				unexplainedHangs++
+			}
+			return false
 		}
 		op := k.Progs[w][next[w]]
-		if f := flusher(); f >= 0 {
-			if op.K == "S" || op.K == "F" || op.K == "V" {
+		inFlush := flusher() >= 0
+		if inFlush {
+			if blocksDuringFlush[op.K] {
 				return true // would block on Logger.mu held by the FlushBuffer in progress
 			}
 			stats["switch_during_flush"]++
 		}
 		c.cmd[w] <- next[w]
-		return wait(w)
+		if wait(w) {
+			return true
+		}
+		if hung {
+			if inFlush {
+				blocksDuringFlush[op.K] = true // learned: this op waits for the FlushBuffer in progress
+				stats["hang_explained"]++
+			} else {
+				unexplainedHangs++
+			}
+		}
+		return false
 	}
 	run := func(w int) bool {
 		for i := 0; i < 1000; i++ {
@@ -342,10 +374,8 @@ func runB(k bcaseT, r *hx.Rand) (bcaseT, []evT, bool, map[string]int) {
 				if status[w] == stDone {
 					continue
 				}
-				if status[w] == stIdle && flusher() >= 0 {
-					if op := k.Progs[w][next[w]]; op.K == "S" || op.K == "F" || op.K == "V" {
-						continue
-					}
+				if status[w] == stIdle && flusher() >= 0 && blocksDuringFlush[k.Progs[w][next[w]].K] {
+					continue
 				}
 				cand = append(cand, w)
 			}
@@ -367,6 +397,11 @@ func runB(k bcaseT, r *hx.Rand) (bcaseT, []evT, bool, map[string]int) {
 		}
 	}
 	trace := append([]evT(nil), c.trace...)
+	if hung {
+		// cut: the blocked goroutines are abandoned, the partial trace is the observation
+		stats["hung"]++
+		return out, trace, true, stats
+	}
 	// drain: release whatever is still blocked so that no goroutine outlives the case (not observed)
 	if ok {
 		for i := 0; i < 10000; i++ {
@@ -394,6 +429,12 @@ func runB(k bcaseT, r *hx.Rand) (bcaseT, []evT, bool, map[string]int) {
 // ---- case line ----
 
 func emitBuffer(id string, k bcaseT, r *hx.Rand, st *hx.Stats) string {
+	if unexplainedHangs >= 3 && !k.App {
+		if st != nil {
+			st.Count("buffer_skipped_after_hangs")
+		}
+		return "# " + id + " skipped: three conductor histories hung without explanation"
+	}
 	k2, trace, ok, stats := runB(k, r)
 	if k.App {
 		// the only way an app-mode case fails to run is its ephemeral port being taken meanwhile:
@@ -491,7 +532,10 @@ func emitBuffer(id string, k bcaseT, r *hx.Rand, st *hx.Stats) string {
 			st.Count("buffer_has_stale_logger")
 		}
 		if !ok {
-			st.Count("buffer_stuck")
+			st.Count("buffer_panicked")
+		}
+		if stats["hung"] > 0 {
+			st.Count("buffer_cut_by_watchdog")
 		}
 	}
 	return l.String() + hx.Comment(caseT{B: &k2})
@@ -559,6 +603,10 @@ func genBuffer(r *hx.Rand) bcaseT {
 	}
 	if r.Chance(3, 4) {
 		w := r.Intn(n)
+		// an aborted start-up: Shutdown runs before the buffer is flushed
+		if r.Chance(1, 5) {
+			k.Progs[w] = append(k.Progs[w], bopT{K: "H"})
+		}
 		k.Progs[w] = append(k.Progs[w], bopT{K: "F"})
 	}
 	return k
@@ -591,6 +639,9 @@ func fixedBuffer() []bcaseT {
 		{Custom: true, Progs: [][]bopT{{S, {K: "L", L: &logT{Seq: 0, Lvl: 3, Fail: true}}, lg(1, 3, false), F}},
 			Sched: []stepT{{G: 0}, {G: 0}, {G: 0}, {G: 0}, {G: 0}, {G: 0}}},
 		{Progs: [][]bopT{{S, {K: "L", L: &logT{Seq: 0, Lvl: 3, Fail: true}}, lg(1, 3, false), F}}, Sched: r0(4)},
+		// aborted start-up: StartBuffering; log; Shutdown; FlushBuffer — the buffered records must still come out
+		{Progs: [][]bopT{{S, lg(0, 3, false), lg(1, 1, true), {K: "H"}, F}}, Sched: r0(5)},
+		{Custom: true, Progs: [][]bopT{{S, lg(0, 3, false), {K: "H"}, F}}, Sched: []stepT{{G: 0}, {G: 0}, {G: 0}, {G: 0}, {G: 0}}},
 		// K20f: a slog.Logger obtained before StartBuffering bypasses the buffer
 		{Progs: [][]bopT{{S, lg(0, 3, false), {K: "L", L: &logT{Seq: 1, Lvl: 3, Stale: true}}, F}}, Sched: r0(4)},
 		// the documented use: start, log, flush on one goroutine; level filtering; shutdown
